@@ -29,6 +29,10 @@ CHECKS = {
          "n<=4, k<=2 (quick) / n<=5, k<=3 (thorough)", "4 C14"),
  "C16": ("bounded symbolic execution (z3) of the k-selection loops with the criterion replaced by a nondeterministic stub (over-approximates every data set)",
          "max_k<=5 (quick) / <=8 (thorough), all min_k", "4 C16"),
+ "C06": ("symbolic execution (z3, non-linear real arithmetic + uninterpreted log/exp) of all 47 metric bodies, reached through the registry and through the model option, against an independent table of closed forms; z3 string query for registry = whitelist",
+         "every vector of length 1..4 (quick) / 1..6 (thorough) in the metric's domain; equality of the formulas over the reals", "4 C06"),
+ "C08": ("symbolic execution (z3 NRA) of the metric bodies for each axiom claimed in the fixed axiom table; sum-type metrics decided on their coordinate kernel with the decomposition checked against the code; floating-point robustness by the standard rounding model with replay of every candidate on the real njit code",
+         "lengths 1..3 (quick) / 1..4 (thorough), kernels lifted up to 4/8; triangle n<=2/3; undecided queries are listed, never counted", "4 C08"),
 }
 
 def main():
